@@ -8,6 +8,7 @@ import (
 
 	"github.com/reactivego/ivg"
 	"github.com/reactivego/ivg/decode"
+	"github.com/reactivego/ivg/encode"
 	"github.com/reactivego/ivg/render"
 	"verif/gen"
 	"verif/mc"
@@ -44,7 +45,8 @@ type c06Case struct {
 	// arc then a zero-radius arc; 3 a cubic then a zero-radius arc; 4 a previous graphic whose last
 	// arc ended on the same pixel; 5 an undrawn path with a relative arc. They end at (X1,Y1).
 	Prefix int    `json:"prefix,omitempty"`
-	Flags  []int  `json:"decoded_flags,omitempty"` // [value, width, relative]: the decoded-flags route
+	Flags  []int  `json:"decoded_flags,omitempty"`
+	Run    []int  `json:"encoded_run,omitempty"` // [value, width, relative]: the decoded-flags route
 	Desc   string `json:"desc,omitempty"`
 }
 
@@ -61,6 +63,7 @@ func init() {
 			nr := len(c06Radii)
 			if u == nr*nr*len(c06Rot) {
 				(&c06State{w: w}).decodedFlags(nil)
+				(&c06State{w: w}).encodedRuns(nil)
 				return
 			}
 			rx, ry, rot := c06Radii[u/(nr*len(c06Rot))], c06Radii[u/len(c06Rot)%nr], c06Rot[u%len(c06Rot)]
@@ -122,6 +125,10 @@ func init() {
 			var cs c06Case
 			if err := unmarshalCase(data, &cs); err != nil {
 				return err
+			}
+			if cs.Run != nil {
+				(&c06State{w: w}).encodedRuns(cs.Run)
+				return nil
 			}
 			if cs.Flags != nil {
 				(&c06State{w: w}).decodedFlags(cs.Flags)
@@ -197,6 +204,75 @@ func (st *c06State) decodedFlags(only []int) {
 				h := mc.NewHasher()
 				h.Str("decoded-flags")
 				h.Byte(byte(v & 3))
+				w.Outcome(h.Sum(), true)
+			}
+		}
+	}
+}
+
+// encodedRuns: a run of n arcs with pairwise different operands (longer than one opcode can count, too)
+// written by an Encoder and decoded into a Renderer drives the rasteriser exactly as the direct calls do
+// (every operand is a multiple of 1/64 and every rotation a multiple of 1/8: nothing is quantised).
+func (st *c06State) encodedRuns(only []int) {
+	w := st.w
+	rect := c05Rects[1]
+	for _, n := range []int{1, 3, 15, 16, 17, 18, 20, 32, 33, 35, 49} {
+		for rel := 0; rel < 2; rel++ {
+			for hi := 0; hi < 2; hi++ {
+				if only != nil && (n != only[0] || rel != only[1] || hi != only[2]) {
+					continue
+				}
+				w.Eval()
+				run := func(d ivg.Destination) {
+					d.StartPath(0, -20, 3)
+					for i := 0; i < n; i++ {
+						rx, ry := float32(2+i%5), float32(1.5+float32(i%7)/4)
+						rot := float32(i%8) / 8 // dyadic: exact in the one-byte form
+						x, y := float32(-20+i)+0.5, float32(3+(i%3)*2)
+						if rel == 1 {
+							x, y = 1.25+float32(i%4)/8, float32(i%3-1)
+							d.RelArcTo(rx, ry, rot, i%2 == 0, i%3 == 0, x, y)
+						} else {
+							d.AbsArcTo(rx, ry, rot, i%2 == 0, i%3 == 0, x, y)
+						}
+					}
+					d.ClosePathEndPath()
+				}
+				var e encode.Encoder
+				e.HighResolutionCoordinates = hi == 1
+				run(&e)
+				cs := c06Case{Run: []int{n, rel, hi}}
+				b, err := e.Bytes()
+				if err != nil {
+					w.Fail("encoded-run:encode-error", fmt.Sprintf("run of %d arcs: %v", n, err), cs)
+					continue
+				}
+				var z1, z2 render.Renderer
+				var r1, r2 rec.Raster
+				z1.SetRasterizer(&r1, rect)
+				z2.SetRasterizer(&r2, rect)
+				if err := decode.Decode(&z1, b); err != nil {
+					w.Fail("encoded-run:rejected", fmt.Sprintf("run of %d arcs: stream %x rejected: %v", n, b, err), cs)
+					continue
+				}
+				z2.Reset(ivg.DefaultViewBox, ivg.DefaultPalette)
+				run(&z2)
+				k := -1
+				if len(r1.Calls) != len(r2.Calls) {
+					k = min(len(r1.Calls), len(r2.Calls))
+				}
+				for i := 0; i < len(r1.Calls) && i < len(r2.Calls); i++ {
+					if !r1.Calls[i].EqualGeom(&r2.Calls[i]) {
+						k = i
+						break
+					}
+				}
+				if k >= 0 {
+					w.Fail("encoded-run:differs", fmt.Sprintf("run of %d arcs (relative %v, high resolution %v) through Encoder and Decode: rasteriser call %d differs from the direct rendering (%d calls against %d)", n, rel == 1, hi == 1, k, len(r1.Calls), len(r2.Calls)), cs)
+				}
+				h := mc.NewHasher()
+				h.Str("encoded-run")
+				h.Byte(byte(n))
 				w.Outcome(h.Sum(), true)
 			}
 		}
